@@ -324,7 +324,7 @@ func runBuild(c *Ctx) {
 		// helper to which this method hands (*Value).valueOrZero
 		isValueOrZero := func(vcl *ssa.Call) bool {
 			if cal := vcl.Common().StaticCallee(); cal != nil {
-				return cal.Name() == "valueOrZero"
+				return c.isValueOrZeroFunc(cal)
 			}
 			hp, isP := vcl.Common().Value.(*ssa.Parameter)
 			if !isP || !p.PrivateHelper(hp.Parent()) {
@@ -358,7 +358,7 @@ func runBuild(c *Ctx) {
 							}
 						}
 					}
-					if root.Name() != "valueOrZero" {
+					if !c.isValueOrZeroFunc(root) {
 						return false
 					}
 					found = true
@@ -366,17 +366,69 @@ func runBuild(c *Ctx) {
 			}
 			return found
 		}
+		// rendered(v, at): the element whose value-or-zero v is — through the accessor, or inline (the value under a
+		// validity test, the zero of the element's own type otherwise)
+		rendered := func(v ssa.Value, at *ssa.BasicBlock) ssa.Value {
+			v = core.Strip(v)
+			if vcl, isV := v.(*ssa.Call); isV {
+				if isValueOrZero(vcl) && len(vcl.Common().Args) > 0 {
+					return vcl.Common().Args[0]
+				}
+				if core.CalleeName(vcl.Common()) == "reflect.Zero" {
+					if fr, ok := core.AsFieldLoad(vcl.Common().Args[0]); ok && fr.Field == "Type" && fr.Owner == "Value" {
+						return elemOf(fr.Base)
+					}
+				}
+				return nil
+			}
+			if fr, ok := core.AsFieldLoad(v); ok && fr.Field == "Value" && fr.Owner == "Value" {
+				for _, l := range core.Lits(core.Guards(at)) {
+					if l.Kind == "call" && l.Callee == core.RVIsValid && l.Pol && len(l.Args) == 1 {
+						if g, ok := core.AsFieldLoad(l.Args[0]); ok && g.Field == "Value" && core.Path(g.Base) == core.Path(fr.Base) {
+							return elemOf(fr.Base)
+						}
+					}
+				}
+				return nil
+			}
+			if ph, ok := v.(*ssa.Phi); ok && len(ph.Edges) == 2 {
+				var es []ssa.Value
+				for i, e := range ph.Edges {
+					es = append(es, nil)
+					if cl, ok := core.Strip(e).(*ssa.Call); ok && core.CalleeName(cl.Common()) == "reflect.Zero" {
+						if fr, ok := core.AsFieldLoad(cl.Common().Args[0]); ok && fr.Field == "Type" && fr.Owner == "Value" {
+							es[i] = elemOf(fr.Base)
+						}
+					} else if fr, ok := core.AsFieldLoad(e); ok && fr.Field == "Value" && fr.Owner == "Value" {
+						// the edge that carries the value comes from the valid side
+						pred := ph.Block().Preds[i]
+						lits := core.Lits(core.Guards(pred))
+						if len(pred.Instrs) > 0 {
+							if iff, ok := pred.Instrs[len(pred.Instrs)-1].(*ssa.If); ok && pred.Succs[0] == ph.Block() {
+								lits = append(lits, core.LitOf(iff.Cond, true))
+							}
+						}
+						for _, l := range lits {
+							if l.Kind == "call" && l.Callee == core.RVIsValid && l.Pol && len(l.Args) == 1 {
+								if g, ok := core.AsFieldLoad(l.Args[0]); ok && g.Field == "Value" && core.Path(g.Base) == core.Path(fr.Base) {
+									es[i] = elemOf(fr.Base)
+								}
+							}
+						}
+					}
+				}
+				if es[0] != nil && es[1] != nil && core.Path(es[0]) == core.Path(es[1]) {
+					return es[0]
+				}
+			}
+			return nil
+		}
 		for _, ci := range p.RegionCalls(m, "(reflect.Value).Set") {
 			a := ci.Common().Args
 			fcl, isF := a[0].(*ssa.Call)
-			vcl, isV := a[1].(*ssa.Call)
-			if isF && isV && core.CalleeName(fcl.Common()) == "(reflect.Value).Field" && isValueOrZero(vcl) && len(vcl.Common().Args) > 0 {
+			if e0 := rendered(a[1], ci.Block()); isF && e0 != nil && core.CalleeName(fcl.Common()) == "(reflect.Value).Field" {
 				if ifr, isI := core.AsFieldLoad(fcl.Common().Args[1]); isI && ifr.Field == "index" {
-					e := ifr.Base
-					if fa, ok2 := e.(*ssa.FieldAddr); ok2 {
-						e = fa.X
-					}
-					if e == vcl.Common().Args[0] {
+					if elemOf(ifr.Base) == e0 || core.Path(elemOf(ifr.Base)) == core.Path(e0) {
 						ok = true
 					}
 				}
@@ -396,26 +448,15 @@ func runBuild(c *Ctx) {
 			if !isI || core.TypeStr(ia.X.Type()) != "[]reflect.Value" {
 				return
 			}
-			if _, isCall := core.Strip(st.Val).(*ssa.Call); !isCall {
-				if _, isLoad := core.Strip(st.Val).(*ssa.UnOp); !isLoad {
-					return // e.g. the struct value of the non-positional form
-				}
-			}
 			nSlots++
-			vcl, isV := core.Strip(st.Val).(*ssa.Call)
-			if !isV || !isValueOrZero(vcl) {
+			e0 := rendered(st.Val, st.Block())
+			if e0 == nil {
 				badSlot = "slot at " + p.InstrPos(in) + " receives " + core.Path(st.Val) + ", not the value-or-zero of a value"
 				return
 			}
-			if len(vcl.Common().Args) > 0 {
-				if ifr, isF := core.AsFieldLoad(ia.Index); isF && ifr.Field == "index" {
-					e := ifr.Base
-					if fa, ok2 := e.(*ssa.FieldAddr); ok2 {
-						e = fa.X
-					}
-					if e != vcl.Common().Args[0] {
-						badSlot = "slot at " + p.InstrPos(in) + " is addressed by the index of another value"
-					}
+			if ifr, isF := core.AsFieldLoad(ia.Index); isF && ifr.Field == "index" {
+				if e := elemOf(ifr.Base); e != e0 && core.Path(e) != core.Path(e0) {
+					badSlot = "slot at " + p.InstrPos(in) + " is addressed by the index of another value"
 				}
 			}
 		})
@@ -424,7 +465,7 @@ func runBuild(c *Ctx) {
 				"the positional rendering fills each slot with the value at that index, or the zero of its type when unset (never an invalid reflect.Value)", ternary(badSlot == "", fmt.Sprintf("%d slot store(s)", nSlots), badSlot))
 		}
 	}
-	if m := p.Method(p.Arg, "Value", "valueOrZero"); m != nil {
+	for _, m := range c.valueOrZeroCandidates() {
 		c.R.Func(core.FuncName(m))
 		zeroOwn, valRet := false, false
 		for _, r := range core.Returns(m) {
@@ -441,7 +482,7 @@ func runBuild(c *Ctx) {
 				valRet = true
 			}
 		}
-		c.R.Add("VSET", "valueOrZero", core.FuncName(m), p.Pos(m.Pos()), zeroOwn && valRet, "an unset value renders as the zero of its own type, a set value as itself", fmt.Sprintf("zero-of-own-type-when-invalid=%v value-otherwise=%v", zeroOwn, valRet))
+		c.R.Add("VSET", "value-or-zero|"+core.FuncName(m), core.FuncName(m), p.Pos(m.Pos()), zeroOwn && valRet, "an unset value renders as the zero of its own type, a set value as itself", fmt.Sprintf("zero-of-own-type-when-invalid=%v value-otherwise=%v", zeroOwn, valRet))
 	}
 	// NewValueSet: field types are the values' types; names per kind
 	if m := p.Func(p.Arg, "NewValueSet"); m != nil {
@@ -472,8 +513,8 @@ func runBuild(c *Ctx) {
 				}
 			}
 		}
-		c.R.Add("VSET", "NewValueSet|field-types", "NewValueSet", p.Pos(m.Pos()), okT && nlit >= 2, "each listed value becomes a struct field of exactly that value's type", fmt.Sprintf("ok=%v literals=%d", okT, nlit))
-		c.R.Add("VSET", "NewValueSet|field-tags", "NewValueSet", p.Pos(m.Pos()), okTag && nlit >= 2, "each listed value's struct field carries the generated tag (which alone conveys its subtype and type-only flag to the struct walker)", fmt.Sprintf("ok=%v literals=%d", okTag, nlit))
+		c.R.Add("VSET", "NewValueSet|field-types", "NewValueSet", p.Pos(m.Pos()), okT && nlit >= 1, "each listed value becomes a struct field of exactly that value's type", fmt.Sprintf("ok=%v literals=%d", okT, nlit))
+		c.R.Add("VSET", "NewValueSet|field-tags", "NewValueSet", p.Pos(m.Pos()), okTag && nlit >= 1, "each listed value's struct field carries the generated tag (which alone conveys its subtype and type-only flag to the struct walker)", fmt.Sprintf("ok=%v literals=%d", okTag, nlit))
 	}
 	// Signature / SignatureValues: the rendered type list and the rendered value list are empty under the same test on
 	// the set — a built function's type is made from the first and its results from the second (siblings must agree)
@@ -604,4 +645,58 @@ func runBuild(c *Ctx) {
 				fmt.Sprintf("Signature empty when {%s}; SignatureValues empty when {%s}", strings.Join(as, " & "), strings.Join(bs, " & ")))
 		}
 	}
+}
+
+// elemOf strips the field-address step between a *Value and one of its (embedded) fields.
+func elemOf(b ssa.Value) ssa.Value {
+	if fa, ok := b.(*ssa.FieldAddr); ok {
+		return fa.X
+	}
+	return b
+}
+
+// valueOrZeroCandidates: functions of shape func(*Value) reflect.Value that call reflect.Zero — the accessor that
+// renders an unset value as the zero of its type (found by shape, whatever it is called).
+func (c *Ctx) valueOrZeroCandidates() []*ssa.Function {
+	var out []*ssa.Function
+	for _, f := range c.P.ArgFuncs() {
+		if f.Parent() != nil || len(f.Params) != 1 || f.Signature.Results().Len() != 1 {
+			continue
+		}
+		if core.TypeStr(f.Params[0].Type()) != "*Value" || core.TypeStr(f.Signature.Results().At(0).Type()) != "reflect.Value" {
+			continue
+		}
+		if len(core.Calls(f, "reflect.Zero")) > 0 {
+			out = append(out, f)
+		}
+	}
+	return out
+}
+
+// isValueOrZeroFunc: every return is the zero of the parameter's own type or the parameter's own value.
+func (c *Ctx) isValueOrZeroFunc(f *ssa.Function) bool {
+	found := false
+	for _, g := range c.valueOrZeroCandidates() {
+		if g == f {
+			found = true
+		}
+	}
+	if !found {
+		return false
+	}
+	for _, r := range core.Returns(f) {
+		okr := false
+		if cl, ok := r.Results[0].(*ssa.Call); ok && core.CalleeName(cl.Common()) == "reflect.Zero" {
+			if fr, ok := core.AsFieldLoad(cl.Common().Args[0]); ok && fr.Field == "Type" && core.Strip(fr.Base) == ssa.Value(f.Params[0]) {
+				okr = true
+			}
+		}
+		if fr, ok := core.AsFieldLoad(r.Results[0]); ok && fr.Field == "Value" && core.Strip(fr.Base) == ssa.Value(f.Params[0]) {
+			okr = true
+		}
+		if !okr {
+			return false
+		}
+	}
+	return true
 }
